@@ -55,6 +55,9 @@ def all_fns():
 def V(cnt):
   """The next argument value: a Sentinel, every seventh one an Amb (== has no truth value)."""
   n = next(cnt)
+  if n % 11 == 5:
+    # a value that EQUALS the default of some (other) parameter of the lattice callables
+    return ('Dk0', 'Dk1', 'Dq1', 'Dp1')[n % 4]
   return Amb(n) if n % 7 == 3 else Sentinel(n)
 
 
